@@ -569,9 +569,12 @@ def schedule_entries(draw, stations, max_len=4, empty_ok=True, vacant_ok=True, f
 def scripted_schedulers(draw, stations, max_len=4, always_max=False):
     mr = draw(st.sampled_from([None, None, 1, 1, 2, 3, 7]))
     if always_max:
-        # one-period schedule at the top level for every station, recomputed every period
-        rows = {s["id"]: [top_level(s)] for s in stations}
-        return {"kind": "scripted", "max_recompute": 1, "table": [{"rows": rows, "order": sorted(rows), "vtype": "float"}], "always_max": True}
+        # top level for every station: either a one-period schedule recomputed every period, or
+        # a 60-period schedule submitted only when an event occurs (max_recompute None)
+        every_period = draw(st.booleans())
+        L = 1 if every_period else 60
+        rows = {s["id"]: [top_level(s)] * L for s in stations}
+        return {"kind": "scripted", "max_recompute": 1 if every_period else None, "table": [{"rows": rows, "order": sorted(rows), "vtype": "float"}], "always_max": True}
     table = draw(st.lists(schedule_entries(stations, max_len), min_size=1, max_size=5))
     return {"kind": "scripted", "max_recompute": mr, "table": table}
 
